@@ -74,8 +74,11 @@ def check(case, ctx):
     x = make(kind, n, case["seed"])
     x64 = x.astype(np.float64)
     nx = float(np.linalg.norm(x64)) + 1e-300
-    ts = _ts(x)
-    ctxt = f"n={n} m={m} kind={kind} seed={case['seed']}"
+    from vlib.strategies import relayout
+
+    lay = ["C", "strided_view", "reversed_view"][case["seed"] % 3]
+    ts = _ts(relayout(x, lay))
+    ctxt = f"n={n} m={m} kind={kind} seed={case['seed']} layout={lay}"
 
     def call(name, fn):
         try:
@@ -146,9 +149,24 @@ def check(case, ctx):
         k = int(np.argmax(np.abs(cr.data - refr)))
         raise Violation("correlate:values", f"{ctxt}: lag {int(lags[k])} got {cr.data[k]!r} want {refr[k]!r}")
     require(cr.header.nsamples == Lc, "correlate:header-nsamples")
-    # correlating with a TimeSeries operand gives the same answer as with the raw array
-    cr2 = call("correlate", lambda: ts.correlate(_ts(y)))
+    # correlating with a TimeSeries operand gives the same answer as with the raw array - also when the same
+    # operand object is used again (operands are inputs: they must not be modified)
+    yt = _ts(y.copy())
+    cr2 = call("correlate", lambda: ts.correlate(yt))
     require(np.array_equal(cr2.data, cr.data), "correlate:operand-type-dependent", ctxt)
+    cr3 = call("correlate", lambda: ts.correlate(yt))
+    if not np.array_equal(np.asarray(yt.data), y) or not np.array_equal(cr3.data, cr.data):
+        raise Violation("correlate:operand-modified", f"{ctxt}: a second correlate with the same TimeSeries operand gives a different result "
+                        f"(operand changed: {not np.array_equal(np.asarray(yt.data), y)})")
+    require(np.array_equal(np.asarray(ts.data), x), "correlate:self-modified", ctxt)
+    if n <= 300:
+        ac = call("correlate", lambda: ts.correlate(ts))
+        refa = np.correlate(x64, x64, "full")
+        if ac.data.shape != refa.shape or np.any(np.abs(ac.data.astype(np.float64) - refa) > 6 * EPS32 * (1 + np.log2(2 * n)) * nx * nx):
+            raise Violation("correlate:autocorrelation", f"{ctxt}: tim.correlate(tim) differs from the full autocorrelation")
+        require(np.array_equal(np.asarray(ts.data), x), "correlate:self-modified", ctxt)
+    # the transforms above must not have modified their inputs either
+    require(np.array_equal(np.asarray(fs.data), X.astype(np.complex64)), "ifft:input-modified", ctxt)
     labels = [kind]
     if L != n:
         labels.append("padded")
